@@ -160,6 +160,7 @@ func (e *executableWorkflow) Execute(ctx context.Context, serializedInput any) (
 					e.logger.Debugf("Step %s completed with stage '%s'...", stepID, previousStage)
 				}
 				l.onStageComplete(stepID, &previousStage, previousStageOutputID, previousStageOutput, wg)
+				l.markUnreachedStages(stepID)
 			},
 			onStepStageFailure: func(_ step.RunningStep, stage string, _ *sync.WaitGroup, err error) {
 				if err == nil {
@@ -476,6 +477,26 @@ func (l *loopState) markOutputsUnresolvable(stepID string, stageID string, skipp
 			}
 		}
 	}
+}
+
+// markUnreachedStages declares every stage that a completed step has not finished as not going to happen.
+// A step does not finish any stage after its completion, so whatever refers to such a stage, for example an
+// optional reference to the error output of a step that succeeded, does not have to wait for it any longer.
+func (l *loopState) markUnreachedStages(stepID string) {
+	l.lock.Lock()
+	defer l.lock.Unlock()
+	for _, stage := range l.lifecycles[stepID].Stages {
+		stageNode, err := l.dag.GetNodeByID(GetStageNodeID(stepID, stage.ID))
+		if err != nil {
+			continue
+		}
+		if err := stageNode.ResolveNode(dgraph.Unresolvable); err != nil {
+			// The step finished this stage.
+			continue
+		}
+		l.markOutputsUnresolvable(stepID, stage.ID, nil)
+	}
+	l.notifySteps()
 }
 
 // Marks the stage node for the step's stage as unresolvable.
